@@ -633,6 +633,9 @@ func init() {
 			g := goproto.Run(def, core.Pkgs("./optimize"))
 			g.Floor("go_statements", 3)
 			res.Merge(g)
+			si := flagx.RunSentinelIndex(def, core.Pkgs("./optimize/..."))
+			si.Floor("fields_set_to_minus_one", 1)
+			res.Merge(si)
 			sd := errx.RunStatusDropped(def, core.Pkgs("./optimize/..."))
 			sd.Floor("status_error_pairs_stored", 1)
 			res.Merge(sd)
@@ -963,6 +966,8 @@ func dump(argv []string) {
 		res = flagx.RunLenValue(def, core.Pkgs(argv[1:]...))
 	case "contskip":
 		res = loopidx.RunContinueSkip(def, core.Pkgs(argv[1:]...))
+	case "sentinelidx":
+		res = flagx.RunSentinelIndex(def, core.Pkgs(argv[1:]...))
 	case "workquery":
 		res = flagx.RunWorkQuery(def, core.Pkgs(argv[1:]...))
 	case "betascale":
